@@ -41,6 +41,7 @@ type Options struct {
 	TLSListener       bool // the proxy listener speaks TLS (self-signed certificate)
 	TLSHandshakeTimeout   time.Duration // transport: TLS handshake timeout towards the origin
 	ResponseHeaderTimeout time.Duration // transport: time to wait for the origin's response head
+	Handler               bool              // serve through martian's http.Handler implementation on net/http's server (TestingHTTPHandler)
 	ProxyProtocol         time.Duration     // > 0: the listener expects a PROXY protocol header (value = header read timeout)
 	Redirect              map[string]string // dial redirect (--connect-to): requested host:port -> address actually dialled
 }
@@ -149,6 +150,7 @@ func New(opt Options) (*Rig, error) {
 	if opt.TLSListener {
 		cfg.Protocol = forwarder.HTTPSScheme
 	}
+	cfg.TestingHTTPHandler = opt.Handler
 	if opt.ProxyProtocol > 0 {
 		cfg.ProxyProtocolConfig = &forwarder.ProxyProtocolConfig{ReadHeaderTimeout: opt.ProxyProtocol}
 	}
@@ -186,6 +188,12 @@ func New(opt Options) (*Rig, error) {
 	cfg.ResponseModifiers = []forwarder.ResponseModifier{forwarder.ResponseModifierFunc(func(res *http.Response) error {
 		if res.Request == nil {
 			return nil
+		}
+		// hold an error response of the proxy between the moment it is built and the moment it is written
+		if h := res.Request.Header.Get("X-Vf-Hold-Error-Response"); h != "" && res.Header.Get(forwarder.ErrorHeader) != "" {
+			if d, err := time.ParseDuration(h); err == nil {
+				time.Sleep(d)
+			}
 		}
 		f := res.Request.Header.Get(FaultHeader)
 		// only fail the first response of the exchange (not the error response built for the failure)
